@@ -29,7 +29,9 @@ Part == /\ Is("Part") /\ l' = l + 1
 Invar == /\ Is("Invar") /\ l' = l + 1 /\ (Ev.lattice => Ev.exactSame) /\ Ev.closeRel
 \* the objectives against their definitions computed naively by the driver over the scaled, missing -> 0 samples (every loss, the four
 \* scaling modes, cached / un-cached inputs and targets, any batch size and thread count): an environment predicate
-Naive == /\ Is("Naive") /\ l' = l + 1 /\ Ev.naiveOK /\ Ev.valueOnlySame
+\* againOK: the same function object evaluated again with its gradient at a second point and once more at the first one agrees with the
+\* definition each time (nothing of an evaluation survives into the next one)
+Naive == /\ Is("Naive") /\ l' = l + 1 /\ Ev.naiveOK /\ Ev.valueOnlySame /\ Ev.againOK
 Next == Lin \/ Bias \/ Scale \/ Grads \/ Part \/ Invar \/ Naive
 Init == l = 1
 Spec == Init /\ [][Next]_l
